@@ -334,6 +334,14 @@ def dispatch_body(ctx, p):
         pth2 = os.path.join(d, 's.dat')
         a.save(pth2, filetype='lmpdat')
         ctx.require('save by path, by explicit type and to an open file write the same text', t1 == f.getvalue() == open(pth2).read())
+        # an explicit file type overrides whatever the path's extension suggests (LAMMPS naming data.<system>; a misleading .cif / .cml)
+        for nm in ('data.uio66', 's.cif', 's.cml', 'noextension'):
+            px = os.path.join(d, nm)
+            a.save(px, filetype='lmpdat')
+            ctx.require('an explicit file type overrides the extension of the path (save)', open(px).read() == t1, detail=dict(name=nm))
+            bx = Atoms.load(px, filetype='lmpdat')
+            ctx.require('an explicit file type overrides the extension of the path (load)',
+                        len(bx) == 2 and list(bx.elements) == ['C', 'N'] and np.array_equal(bx.bonds, [[0, 1]]), detail=dict(name=nm))
         b1 = Atoms.load(pth)
         with open(pth) as fh:
             b2 = Atoms.load(fh, filetype='lmpdat')
